@@ -8,6 +8,7 @@ from vx.unit import C, REPO
 from vx.rustcut import CutError, code_mask, match_close
 
 PROPS = ['C20']
+RLIMIT = 40
 SRC = 'raw_class_file/src/lib.rs'
 EXP = 'raw_class_file/src/lib.rs [rustc -Zunpretty=expanded]'
 
